@@ -32,9 +32,12 @@ def constraint_key(c) -> tuple:
 
 def atoms_snapshot(atoms: Atoms, with_constraints=True) -> dict:
     """Everything observable on an Atoms object, bitwise."""
+    arrays = {k: arr_key(v) for k, v in sorted(atoms.arrays.items())}
+    # an absent momenta array is, through every ASE accessor, the same as zero momenta
+    arrays.setdefault("momenta", arr_key(np.zeros((len(atoms), 3))))
     snap = {
         "n": len(atoms),
-        "arrays": {k: arr_key(v) for k, v in sorted(atoms.arrays.items())},
+        "arrays": arrays,
         "cell": arr_key(np.asarray(atoms.cell.array)),
         "pbc": tuple(bool(x) for x in atoms.pbc),
     }
